@@ -299,9 +299,16 @@ class SetMethod(DeserializationMethod):
         values: set = set()
         for i, elt in enumerate(data):
             try:
-                values.add(self.value_method.deserialize(elt))
+                value = self.value_method.deserialize(elt)
             except ValidationError as err:
                 elt_errors = set_child_error(elt_errors, i, err)
+                continue
+            try:
+                values.add(value)
+            except TypeError:
+                elt_errors = set_child_error(
+                    elt_errors, i, ValidationError("unhashable set element")
+                )
         validate_constraints(data, self.constraints, elt_errors)
         return values
 
